@@ -43,13 +43,15 @@ pub struct RegionResult {
     pub skipped: u64,
     pub violation: Option<String>,
     /// every failing pixel matches the signature of the known thin-piece finding: an inside pixel that
-    /// lost at most two of its 16 sample cells, next to a stroke piece thinner than half a pixel
+    /// lost at most half of its 16 sample cells, next to a stroke piece thinner than half a pixel
     pub only_thin_piece_pinholes: bool,
 }
 
 fn thin_piece_pinhole(reg: &Region, c: P, px: u32) -> bool {
+    // a thin piece crossing a pixel diagonally touches one cell on each of the four sample rows, a piece
+    // up to half a pixel thick twice that: at most half of the 16 cells can be cancelled
     let a = px >> 24;
-    if a < 223 || px != a * 0x01010101 {
+    if a < 127 || px != a * 0x01010101 {
         return false;
     }
     reg.inner.iter().any(|p| p.width() < 0.5 && p.signed_dist(c).abs() <= 1.5)
